@@ -184,6 +184,14 @@ func (e *Env) Do(op Op) *Res {
 				}
 				ctx = e.SharedCtx
 				sr.CallerCtx = ctx
+			case "pcancel":
+				// a cancellable context DERIVED FROM THE PARENT SCOPE'S OWN CONTEXT (it already carries the parent scope)
+				var base context.Context = context.Background()
+				if ps, ok := tgt.(godi.Scope); ok {
+					base = ps.Context()
+				}
+				ctx, sr.Cancel = context.WithCancel(context.WithValue(base, ctxKey{}, op.Bind))
+				sr.CallerCtx = ctx
 			case "cancel":
 				base := context.WithValue(context.Background(), ctxKey{}, op.Bind)
 				ctx, sr.Cancel = context.WithCancel(base)
